@@ -224,8 +224,8 @@ def _worker(args):
     modname, cname, tier, prefix = args
     import importlib
     try:
-        mod = importlib.import_module(modname)
-        reg = mod.registry()
+        from .contract import load_registry
+        reg = load_registry(modname)
         con = reg.contracts[cname]
         return run_contract(reg, con, tier, prefix, modname)
     except BaseException as e:  # noqa
